@@ -344,6 +344,54 @@ M.CALLEES['cross._func'] = call_func
 
 
 # ----------------------------------------------------------------------------------------------
+# cross._iter — one QR + maxvol step (shape tier, C06 "well-formed at every exit" / C05)
+
+def _iter_unit(U, ltr, has_I):
+    fn = U.func('cross', '_iter')
+    ex = U.executor(fn, axioms=T.axioms('shape', 'mulI'), lenient=True)
+    st = U.state()
+    Zc, z = S.core_param('Z')
+    r1, n, r2 = T.d0(z), T.d1(z), T.d2(z)
+    w = z3.Int('w')
+    rows_I = r1 if ltr else r2
+    Ig = VArr((n, 1), None, None, 'i')
+    I = VArr((rows_I, w), None, None, 'i') if has_I else NONE
+    dr_min, dr_max = z3.Ints('dr_min dr_max')
+    st.vars.update(Z=Zc, Ig=Ig, I=I, tau=z3.Real('tau'), dr_min=dr_min, dr_max=dr_max, tau0=z3.Real('tau0'), k0=z3.Int('k0'),
+                   ltr=ltr)
+    res = U.run(ex, st, pre=[r1 >= 1, n >= 1, r2 >= 1, w >= 1, dr_min >= 0, dr_max >= dr_min])
+    U.cover('precondition-satisfiable', U.pre)
+    for p, o in res:
+        if o.kind != 'return':
+            U.post('no-exception', p, False)
+            continue
+        G, R, In = [p.deref(x) for x in o.value.items]
+        okG = isinstance(G, VArr) and G.ndim == 3
+        okR = isinstance(R, VArr) and R.ndim == 2
+        okI = isinstance(In, VArr) and In.ndim == 2
+        rn = Z(G.shape[2] if ltr else G.shape[0]) if okG else z3.IntVal(-1)
+        U.post('new-rank-at-least-1', p, rn >= 1)
+        if ltr:
+            U.post('core-is-r1-x-n-x-new-rank', p, z3.And(Z(G.shape[0]) == r1, Z(G.shape[1]) == n) if okG else False)
+            U.post('carry-is-new-rank-x-r2', p, z3.And(Z(R.shape[0]) == rn, Z(R.shape[1]) == r2) if okR else False)
+        else:
+            U.post('core-is-new-rank-x-n-x-r2', p, z3.And(Z(G.shape[1]) == n, Z(G.shape[2]) == r2) if okG else False)
+            U.post('carry-is-r1-x-new-rank', p, z3.And(Z(R.shape[0]) == r1, Z(R.shape[1]) == rn) if okR else False)
+        U.post('one-multi-index-per-new-rank', p, Z(In.shape[0]) == rn if okI else False)
+        U.post('multi-indices-one-position-longer', p, Z(In.shape[1]) == (w + 1 if has_I else 1) if okI else False)
+        U.post('multi-indices-are-integers', p, z3.BoolVal(okI and In.dtype == 'i'))
+
+
+for _l in (True, False):
+    for _h in (True, False):
+        def _mk(l=_l, h=_h):
+            @unit(f'cross._iter.{"ltr" if l else "rtl"}.{"I" if h else "none"}', props=('C06', 'C05'))
+            def u(U):
+                _iter_unit(U, l, h)
+        _mk()
+
+
+# ----------------------------------------------------------------------------------------------
 # cross() head: argument validation (C06: "missing stop criteria are rejected with ValueError before any evaluation")
 
 def opt_arr(name):
@@ -429,6 +477,8 @@ def _cross_unit(U, with_cache, with_cb):
         'data.accuracy_on_data': lambda ex, s, a, k, n_: aod_f(_tt_of(s, a[0]).arr, _tt_of(s, a[0]).n),
         'act_two.accuracy': lambda ex, s, a, k, n_: acc_f(_tt_of(s, a[0]).arr, _tt_of(s, a[0]).n, _tt_of(s, a[1]).arr),
         'cross._iter': lambda ex, s, a, k, n_: VTuple([M.VOpaque('G'), M.VOpaque('R'), M.VOpaque('I')]),
+        # the control tier does not follow shapes (unit cross.cross.shapes does): contractions are opaque here
+        'np.tensordot': lambda ex, s, a, k, n_: M.VOpaque('tensordot'),
     }
 
     def fields(s):
@@ -562,3 +612,198 @@ for _wc in (False, True):
             def u(U):
                 _cross_unit(U, wc, cb)
         _mk()
+
+
+# ----------------------------------------------------------------------------------------------
+# cross(): shape tier (C06: "however and whenever it is interrupted it returns a well-formed TT-tensor of the original
+# shape"; C05: "a TT-tensor of the same shape").  The carries R, the index lists Ir / Ic and the cores are followed through
+# the two pre-iteration sweeps and both half-sweeps; contents are not interpreted.  erank / accuracy / accuracy_on_data
+# are called under the precondition wf(Y) with the mode sizes of Y0, so every return site has to establish it.
+
+def _cross_shapes_unit(U):
+    fn = U.func('cross', 'cross')
+    st = U.state()
+    Y0, A0, d = S.tt_param(st, 'Y0', z3.Int('d'))
+    info, _left = S.info_record(st, prefix='leftover')
+    k = z3.Int('k!cs')
+    t_ = z3.Int('t!cs')
+    rw = M.optarr_rows
+    dr_min, dr_max = z3.Ints('dr_min dr_max')
+    AX = T.axioms('shape')
+
+    def same_modes(Yarr):
+        return z3.ForAll([k], z3.Implies(z3.And(0 <= k, k < d), T.d1(Yarr[k]) == T.d1(A0[k])), patterns=[Yarr[k]])
+
+    def need_wf(ex, s, Yv, node, who):
+        Ys = _tt_of(s, Yv)
+        ex.oblige(s, 'call-pre', f'{who}: argument is a well-formed TT-tensor', z3.And(Ys.n == d, T.wf(Ys.arr, d)), node)
+        ex.oblige(s, 'call-pre', f'{who}: argument has the mode sizes of Y0', same_modes(Ys.arr), node)
+
+    def c_erank(ex, s, a, kw, node):
+        need_wf(ex, s, a[0], node, 'erank')
+        return ex.fresh_real('erank')
+
+    def c_acc(ex, s, a, kw, node):
+        need_wf(ex, s, a[0], node, 'accuracy')
+        need_wf(ex, s, a[1], node, 'accuracy (previous sweep)')
+        return ex.fresh_real('acc')
+
+    def c_aod(ex, s, a, kw, node):
+        need_wf(ex, s, a[0], node, 'accuracy_on_data')
+        return ex.fresh_real('aod')
+
+    def rows_of(s, v, what):
+        """`v.shape[0] if v is not None else 1` for an element of Ir / Ic (None or an array)."""
+        v = s.deref(v)
+        if v is NONE:
+            return z3.IntVal(1), z3.BoolVal(True)
+        if isinstance(v, VOpt):
+            w = s.deref(v.val)
+            if isinstance(w, VArr) and w.ndim == 2:
+                return z3.If(v.isnone, 1, Z(w.shape[0])), v.isnone
+        if isinstance(v, VArr) and v.ndim == 2:
+            return Z(v.shape[0]), z3.BoolVal(False)
+        raise M.ContractMismatch(f'cross(): {what} is neither None nor a 2-D index array')
+
+    def c_func(ex, s, a, kw, node):
+        # contract of _func proved by the units cross._func.* / cross._func_eval.*: the r1 x n x r2 block, or None with
+        # info['stop'] set to 'm' / 'func'
+        n_i, none_g = rows_of(s, a[1], 'Ig[i]')
+        ex.oblige(s, 'call-pre', '_func: the grid block Ig[i] is an array', z3.Not(none_g), node)
+        r1, _ = rows_of(s, a[2], 'Ir[i]')
+        r2, _ = rows_of(s, a[3], 'Ic[i+1]')
+        rec = s.deref(a[4])
+        ret_none = ex.fresh_bool('Z_none')
+        new_stop = VOpt(ex.fresh_bool('stop_none'), VStr(ex.fresh_int('stop_str')))
+        s.assume(z3.Implies(ret_none, S.stop_in(new_stop, ('m', 'func'))))
+        rec.fields['stop'] = new_stop
+        tz = ex.fresh('Zblk', T.Core)
+        s.assume(T.d0(tz) == r1, T.d1(tz) == n_i, T.d2(tz) == r2)
+        return VOpt(ret_none, M.mk_core(tz))
+
+    def c_iter(ex, s, a, kw, node):
+        # contract of _iter proved by the units cross._iter.*
+        Zv = s.deref(a[0])
+        if isinstance(Zv, VOpt):
+            ex.oblige(s, 'call-pre', '_iter: the block is not None', z3.Not(Zv.isnone), node)
+            Zv = s.deref(Zv.val)
+        if not (isinstance(Zv, VArr) and Zv.ndim == 3):
+            raise M.ContractMismatch('cross(): _iter is called with something that is not a 3-D block')
+        r1, n_i, r2 = [Z(x) for x in Zv.shape]
+        ltr = kw.get('ltr', a[8] if len(a) > 8 else True)
+        if not isinstance(ltr, bool):
+            raise M.ContractMismatch('cross(): _iter direction is not a literal')
+        g_rows, g_none = rows_of(s, a[1], 'Ig[i]')
+        i_rows, i_none = rows_of(s, a[2], 'I')
+        mn = Z(ex.need_num(s, a[4], node)) if len(a) > 4 else z3.IntVal(0)
+        mx = Z(ex.need_num(s, a[5], node)) if len(a) > 5 else z3.IntVal(0)
+        ex.oblige(s, 'call-pre', '_iter: block non-empty, grid block has one row per mode index',
+                  z3.And(r1 >= 1, n_i >= 1, r2 >= 1, z3.Not(g_none), g_rows == n_i), node)
+        ex.oblige(s, 'call-pre', '_iter: old multi-indices are None or one per row (ltr) / column (rtl) of the block',
+                  z3.Or(i_none, i_rows == (r1 if ltr else r2)), node)
+        ex.oblige(s, 'call-pre', '_iter: consistent rank-growth request', z3.And(mn >= 0, mx >= mn), node)
+        rn = ex.fresh_int('rnew')
+        s.assume(rn >= 1)
+        tg, tr = ex.fresh('Giter', T.Core), ex.fresh('Riter', T.Mat)
+        if ltr:
+            s.assume(T.d0(tg) == r1, T.d1(tg) == n_i, T.d2(tg) == rn, T.rows(tr) == rn, T.cols(tr) == r2)
+        else:
+            s.assume(T.d0(tg) == rn, T.d1(tg) == n_i, T.d2(tg) == r2, T.rows(tr) == r1, T.cols(tr) == rn)
+        return VTuple([M.mk_core(tg), M.mk_mat(tr), VArr((rn, ex.fresh_int('w')), None, None, 'i')])
+
+    callees = {'props.erank': c_erank, 'act_two.accuracy': c_acc, 'data.accuracy_on_data': c_aod,
+               'cross._func': c_func, 'cross._iter': c_iter}
+
+    def parts(s):
+        Y, Ir, Ic = [s.deref(s.vars[x]) for x in ('Y', 'Ir', 'Ic')]
+        for v, nm in ((Y, 'Y'), (Ir, 'Ir'), (Ic, 'Ic')):
+            if not isinstance(v, VSeq):
+                raise M.ContractMismatch(f'cross(): {nm} is not a list')
+        if Y.tag != 'core' or Ir.tag != 'optarr' or Ic.tag != 'optarr':
+            raise M.ContractMismatch('cross(): Y / Ir / Ic are not the list of cores / lists of optional index arrays')
+        R = s.deref(s.vars['R']) if 'R' in s.vars else None
+        if R is not None and not (isinstance(R, VArr) and R.ndim == 2):
+            raise M.ContractMismatch('cross(): the carry R is not a matrix')
+        return Y, Ir, Ic, R
+
+    def irw(Ir, t):
+        return rw(Ir.arr[t])
+
+    def base(s):
+        Y, Ir, Ic, R = parts(s)
+        return [('lengths', z3.And(Y.n == d, Ir.n == d + 1, Ic.n == d + 1)),
+                ('Ir[0]-and-Ic[d]-stay-None', z3.And(Ir.arr[0] == 0, Ic.arr[d] == 0)),
+                ('left-index-sets-non-empty', z3.ForAll([t_], z3.Implies(z3.And(0 <= t_, t_ <= d), irw(Ir, t_) >= 1), patterns=[Ir.arr[t_]])),
+                ('right-index-sets-non-empty', z3.ForAll([t_], z3.Implies(z3.And(0 <= t_, t_ <= d), irw(Ic, t_) >= 1), patterns=[Ic.arr[t_]]))]
+
+    def Lshape(Y, Ir, kk, last_one):
+        r_next = z3.If(kk == d - 1, 1, irw(Ir, kk + 1)) if last_one else irw(Ir, kk + 1)
+        return z3.And(T.d0(Y.arr[kk]) == irw(Ir, kk), T.d1(Y.arr[kk]) == T.d1(A0[kk]), T.d2(Y.arr[kk]) == r_next)
+
+    def Rshape(Y, Ic, kk, first_one):
+        r_prev = z3.If(kk == 0, 1, irw(Ic, kk)) if first_one else irw(Ic, kk)
+        return z3.And(T.d0(Y.arr[kk]) == r_prev, T.d1(Y.arr[kk]) == T.d1(A0[kk]), T.d2(Y.arr[kk]) == irw(Ic, kk + 1))
+
+    def q(Y, lo, hi, body):
+        return z3.ForAll([k], z3.Implies(z3.And(lo <= k, k < hi), body), patterns=[Y.arr[k]])
+
+    def inv_pre_ltr(ex, s, j):
+        Y, Ir, Ic, R = parts(s)
+        i = j
+        return base(s) + [
+            ('cores-left-of-i-carry-the-new-left-index-sets', q(Y, 0, i, Lshape(Y, Ir, k, False))),
+            ('cores-from-i-on-are-those-of-Y0', q(Y, i, d, Y.arr[k] == A0[k])),
+            ('carry-fits-between-core-i-1-and-core-i', z3.And(Z(R.shape[0]) == irw(Ir, i), Z(R.shape[1]) == z3.If(i < d, T.d0(A0[i]), 1)))]
+
+    def rtl_inv(s, j):
+        Y, Ir, Ic, R = parts(s)
+        i = d - 1 - j
+        return base(s) + [
+            ('cores-right-of-i-carry-the-new-right-index-sets', q(Y, i + 1, d, Rshape(Y, Ic, k, False))),
+            ('cores-up-to-i-carry-the-left-index-sets', q(Y, 0, i + 1, Lshape(Y, Ir, k, True))),
+            ('carry-fits-between-core-i-and-core-i+1',
+             z3.And(Z(R.shape[0]) == z3.If(i == d - 1, 1, irw(Ir, i + 1)), Z(R.shape[1]) == irw(Ic, i + 1)))]
+
+    def inv_while(ex, s, j):
+        Y, Ir, Ic, R = parts(s)
+        return base(s) + [('all-cores-carry-the-right-index-sets', q(Y, 0, d, Rshape(Y, Ic, k, True)))]
+
+    def inv_ltr(ex, s, j):
+        Y, Ir, Ic, R = parts(s)
+        i = j
+        return base(s) + [
+            ('cores-left-of-i-carry-the-new-left-index-sets', q(Y, 0, i, Lshape(Y, Ir, k, False))),
+            ('cores-from-i-on-carry-the-right-index-sets', q(Y, i, d, Rshape(Y, Ic, k, True))),
+            ('carry-fits-between-core-i-1-and-core-i',
+             z3.And(Z(R.shape[0]) == irw(Ir, i), Z(R.shape[1]) == z3.If(i == 0, 1, irw(Ic, i))))]
+
+    loops = {0: {'inv': inv_pre_ltr}, 1: {'inv': lambda ex, s, j: rtl_inv(s, j)}, 2: {'inv': inv_while},
+             3: {'inv': inv_ltr}, 4: {'inv': lambda ex, s, j: rtl_inv(s, j)}}
+    ex = U.executor(fn, loops=loops, callees=callees, axioms=AX, lenient=True)
+    if ex.nloops != 5:
+        raise M.ContractMismatch(f'cross(): expected 5 loops (two pre-iteration sweeps, while, two half-sweeps), found {ex.nloops}')
+    m = S.opt_int('m')
+    st.vars.update(f=M.VOpaque('f'), Y0=Y0, m=m, e=S.opt_real('e'), nswp=S.opt_int('nswp'), tau=z3.Real('tau'),
+                   dr_min=dr_min, dr_max=dr_max, tau0=z3.Real('tau0'), k0=z3.Int('k0'), info=info, cache=NONE,
+                   I_vld=opt_arr('I_vld'), y_vld=opt_arr('y_vld'), e_vld=S.opt_real('e_vld'), cb=NONE, func=NONE,
+                   m_cache_scale=z3.Real('mcs'), log=False)
+    res = U.run(ex, st, pre=[T.wf(A0, d), dr_min >= 0, dr_max >= dr_min, z3.Or(m.isnone, m.val >= 0)])
+    U.cover('precondition-satisfiable', U.pre, axioms=AX)
+    nret = 0
+    for p, o in res:
+        if o.kind == 'raise':
+            continue                      # argument validation: unit cross.cross.validate
+        if o.kind != 'return':
+            U.post('only-returns-or-validation-errors', p, False)
+            continue
+        nret += 1
+        Ys = p.deref(o.value)
+        ok = isinstance(Ys, VSeq) and Ys.tag == 'core'
+        U.post('result-is-a-well-formed-TT-tensor', p, z3.And(Ys.n == d, T.wf(Ys.arr, d)) if ok else False, axioms=AX)
+        U.post('result-has-the-mode-sizes-of-Y0', p, same_modes(Ys.arr) if ok else False, axioms=AX)
+    U.post('three-return-sites-reached', U.pre, z3.BoolVal(nret >= 3))
+
+
+@unit('cross.cross.shapes', props=('C06', 'C05'))
+def u_cross_shapes(U):
+    _cross_shapes_unit(U)
